@@ -7,8 +7,12 @@
  *
  *   C19_KILL_MODE=before   the K-th call is never performed
  *   C19_KILL_MODE=after    the K-th call is performed completely, the process dies before it returns
- *   C19_KILL_MODE=torn     write-type calls only: the first half of the buffer is written, then the
- *                          process dies (a write cut short by the kill); other calls behave as "before"
+ *   C19_KILL_MODE=torn     pwrite only: the buffer is written up to the C19_TORN_INDEX-th (1-based) 4 KiB
+ *                          page-cache boundary of the file that lies strictly inside the write, then the
+ *                          process dies.  This is the short write the kernel produces when a fatal signal
+ *                          arrives between two page-cache pages of one write(2) (generic_perform_write
+ *                          checks fatal_signal_pending per page).  If there is no such boundary, or for
+ *                          any other call, it behaves as "before".
  *
  * C19_KILL_AT=0 or unset: never kill (measuring run).  If C19_TRACE names a file, one line per counted
  * call is appended to it ("<n> <call> <path relative to C19_SCRATCH> <size> <offset>").
@@ -42,6 +46,7 @@ static char scratch[4096];
 static size_t scratch_len;
 static long kill_at;
 static int kill_mode; /* 0 before, 1 after, 2 torn */
+static long torn_index = 1;
 static long counter;
 static int trace_fd = -1;
 static int ready;
@@ -74,6 +79,9 @@ static void init(void)
     kill_at = k ? atol(k) : 0;
     const char *m = getenv("C19_KILL_MODE");
     kill_mode = (m && !strcmp(m, "after")) ? 1 : (m && !strcmp(m, "torn")) ? 2 : 0;
+    const char *ti = getenv("C19_TORN_INDEX");
+    if (ti && atol(ti) > 0)
+        torn_index = atol(ti);
     const char *t = getenv("C19_TRACE");
     if (t && *t)
         trace_fd = open(t, O_WRONLY | O_CREAT | O_APPEND | O_CLOEXEC, 0644);
@@ -131,6 +139,16 @@ static int tick(const char *call, const char *rel, long size, long off)
 
 #define PATHBUF char pb[4096]
 
+/* number of bytes to write before dying in torn mode (0: nothing, die before) */
+static size_t torn_len(size_t n, long long o)
+{
+    long long first = (o / 4096 + 1) * 4096;
+    long long p = first + (torn_index - 1) * 4096;
+    if (o < 0 || p >= o + (long long)n)
+        return 0;
+    return (size_t)(p - o);
+}
+
 ssize_t write(int fd, const void *b, size_t n)
 {
     init();
@@ -139,10 +157,8 @@ ssize_t write(int fd, const void *b, size_t n)
     if (!rel)
         return real_write(fd, b, n);
     int k = tick("write", rel, (long)n, -1);
-    if (k == 2) {
-        real_write(fd, b, n / 2);
+    if (k == 2)
         die();
-    }
     ssize_t r = real_write(fd, b, n);
     if (k)
         die();
@@ -158,7 +174,9 @@ ssize_t pwrite(int fd, const void *b, size_t n, off_t o)
         return real_pwrite(fd, b, n, o);
     int k = tick("pwrite", rel, (long)n, (long)o);
     if (k == 2) {
-        real_pwrite(fd, b, n / 2, o);
+        size_t t = torn_len(n, (long long)o);
+        if (t)
+            real_pwrite(fd, b, t, o);
         die();
     }
     ssize_t r = real_pwrite(fd, b, n, o);
@@ -176,7 +194,9 @@ ssize_t pwrite64(int fd, const void *b, size_t n, off64_t o)
         return real_pwrite64(fd, b, n, o);
     int k = tick("pwrite", rel, (long)n, (long)o);
     if (k == 2) {
-        real_pwrite64(fd, b, n / 2, o);
+        size_t t = torn_len(n, (long long)o);
+        if (t)
+            real_pwrite64(fd, b, t, o);
         die();
     }
     ssize_t r = real_pwrite64(fd, b, n, o);
